@@ -172,6 +172,22 @@ type NamedFields struct {
 	E2 NStr           `valid:"either=1,botheq=2"`
 }
 
+type Enum int
+
+func (e Enum) String() string { return "enum" + fmt.Sprint(int(e)) }
+
+type myErr struct{ s string }
+
+func (e myErr) Error() string { return e.s }
+
+type StringerHolder struct {
+	L []*Enum          `valid:"unique,ints,required,in=(a/b)"`
+	D []*time.Duration `valid:"unique,exist"`
+	M map[*Enum]*Leaf  `valid:"required"`
+	E []error          `valid:"unique,ints"`
+	K map[Enum]Leaf    `valid:"exist"`
+}
+
 // DynHolder: rules that compare / hash / render elements, on fields whose elements are only dynamically typed.
 type DynHolder struct {
 	L []interface{}  `valid:"unique,required,ints,to=1~3"`
@@ -198,6 +214,10 @@ func namedShapes() []shaped {
 		{"[]XI", []XI{{X: []int{1}}, {X: map[string]int{}}, {X: nil}}}, {"[2]interface{}", [2]interface{}{[]byte("a"), []byte("a")}},
 		{"map[string][]interface{}", map[string][]interface{}{"k": {[]int{1}, []int{1}}, "j": {map[string]int{}}}},
 		{"map[string]interface{} of slices", map[string]interface{}{"k": []interface{}{[]int{1}}, "j": []int{1, 1}, "W": [][]int{{1}, {1}}}},
+		// nil pointers whose pointee type has value-receiver String / Error methods, where elements or keys are rendered
+		{"[]*time.Duration{nil}", []*time.Duration{nil, new(time.Duration)}}, {"[2]*Enum", [2]*Enum{nil, new(Enum)}}, {"map[*Enum]Leaf", map[*Enum]Leaf{nil: l, new(Enum): l}},
+		{"map[*time.Time]*Leaf", map[*time.Time]*Leaf{nil: &l}}, {"[]error", []error{nil, fmt.Errorf("x"), (*myErr)(nil)}}, {"[]fmt.Stringer", []fmt.Stringer{nil, Enum(1), (*Enum)(nil)}},
+		{"map[string][]*Enum", map[string][]*Enum{"k": {nil, nil}, "j": nil}}, {"StringerHolder", &StringerHolder{L: []*Enum{nil, nil}, D: []*time.Duration{nil}, M: map[*Enum]*Leaf{nil: &l}, E: []error{(*myErr)(nil), nil}, K: map[Enum]Leaf{1: l, 2: l}}},
 		{"DynHolder", &DynHolder{L: []interface{}{[]int{1}, []int{1}}, A: [2]interface{}{map[string]int{}, map[string]int{}}, X: []XI{{X: []int{1}}}, I: []int{1}}},
 	}
 }
@@ -417,6 +437,54 @@ func run(c *runner.Ctx) {
 				c.Outcome("returned")
 			}
 			c.Sample(func() interface{} { return map[string]string{"entry": e.name, "value": sh.name} })
+		}
+	}
+	// (1c) arbitrary byte strings as the *value* under every rule that looks at text: every string of <= 2 bytes over
+	// all 256 byte values, and every single-byte substitution / insertion in a few seed values
+	c.Space("value-bytes")
+	valueRules := []string{"json", "re='^a.b$'", "in=(a/b)", "include=(a)", "unique", "ints", "ints=-", "phone", "email", "idcard", "ip", "ipv4", "ipv6", "int", "float", "prefix=a", "suffix=a",
+		"to=1~2", "eq=1", "year", "year2month", "date", "datetime", "datetime='/, ,.'", "file", "dir", "required", "either=1", "zz"}
+	tryVal := func(v string) {
+		if !c.Take() {
+			return
+		}
+		for _, r := range valueRules {
+			pan, msg, site := runner.Guard(func() {
+				_ = valid.Var(v, r)
+				if c.Thorough() {
+					_ = valid.Struct(&Box{v}, valid.RM{"F": r + "|m"})
+					_ = valid.Map(map[string]string{"k": v}, valid.RM{"k": r})
+				}
+			})
+			c.AddTransitions(1)
+			if pan {
+				c.Outcome("panic")
+				k := r
+				if i := strings.IndexAny(k, "=|"); i > 0 {
+					k = k[:i]
+				}
+				c.Violation(fmt.Sprintf("panic@%s/value-bytes/%s", site, k), map[string]interface{}{"rule": r, "value_bytes": fmt.Sprintf("%q", v), "panic": msg})
+			}
+		}
+		c.Done(true, 0)
+	}
+	for a := 0; a < 256; a++ {
+		tryVal(string([]byte{byte(a)}))
+		for b := 0; b < 256; b++ {
+			tryVal(string([]byte{byte(a), byte(b)}))
+		}
+	}
+	for _, seed := range []string{`{"a":[1,"x\n"]}`, "it's a \\ \"q\"\t\r\n\x00", "2021-09-28 10:00:00", "1,2,3", "a@b.cn", "1.2.3.4", "::1"} {
+		b := []byte(seed)
+		for i := 0; i <= len(b); i++ {
+			for v := 0; v < 256; v++ {
+				tryVal(string(append(append(append([]byte{}, b[:i]...), byte(v)), b[i:]...)))
+				if i < len(b) {
+					x := append([]byte{}, b...)
+					x[i] = byte(v)
+					tryVal(string(x))
+				}
+			}
 		}
 	}
 	callers := ruleCallers()
